@@ -27,6 +27,10 @@ NOTES = {  # what a seed taught (checks strengthened because it was first missed
     "C05-5": "a yield under altered_default_filters: the stack discipline is C08's subject (all_balanced no longer proves; dynamic failures)",
     "C05-6": "a GC-callback change (held appended tail text): C04's subject",
     "C01-6": "a GC-callback change (held appended tail text): C04's subject; the C01 harness runs with the collector disabled by design",
+    "C03-5": "a change to reduce_whitespace (merge after instead of before): C07's subject (its idempotence/merge theorems and search)",
+    "C03-6": "a change to reduce_whitespace (early return before recursing into a nested xml:space=default): C07's subject",
+    "C02-6": "first only a broken tie: namespace names containing '&' added to the generators",
+    "C06-4": "first only a broken tie: direct document-order search on nested same-name elements and CSS child/descendant combinators added",
     "C03-1": "caught as a broken tie; generator bias for preserved nested children that fit the line requested",
 }
 rows = []
